@@ -201,7 +201,8 @@ def safe_name(name: str, plug: str = "_") -> str:
         res = re.sub(r"\W", plug, name)
 
     if not res.isidentifier():
-        res = ''.join(c if c.isalnum() or c == '_' else plug for c in name)
+        # NOTE: some alphanumerics are not valid in identifiers ('\u00b3'.isalnum())
+        res = ''.join(c if f'_{c}'.isidentifier() else plug for c in name)
 
     if not res.isidentifier():
         if res[0].isdigit():
